@@ -552,6 +552,13 @@ func ParentMain(id, tier string, seed int64, self string, instrInfo string) int 
 	for _, c := range caps {
 		fmt.Printf("  cap: %s\n", c)
 	}
+	if os.Getenv("VERIF_VERBOSE") != "" {
+		rs := append([]*UnitResult(nil), results...)
+		sort.Slice(rs, func(i, j int) bool { return rs[i] != nil && (rs[j] == nil || rs[i].WallS > rs[j].WallS) })
+		for i := 0; i < len(rs) && i < 12 && rs[i] != nil; i++ {
+			fmt.Printf("  slow unit: %-60s %.1fs evals=%d complete=%v\n", rs[i].Unit, rs[i].WallS, rs[i].Evals, rs[i].Complete)
+		}
+	}
 	if len(harnessErrs) > 0 {
 		for _, e := range harnessErrs {
 			fmt.Fprintf(os.Stderr, "HARNESS-ERROR: %s\n", trunc(e, 4000))
